@@ -273,6 +273,16 @@ class C02(Prop):
             mk("scratch-string-%d" % n, 'string f() { return "%s" "x"; }\n' % ("s" * n))
         mk("scratch-many-idents", "void f() { %s }\n" % " ".join("u%s = 1;" % ("v" * (i % 200)) for i in range(120)))
         mk("string-concat-long", 'string f() { return %s; }\n' % " ".join('"%s"' % ("c" * 100) for _ in range(30)))
+        # the pad filled to the last bytes by pending function names, then an allocation that just fits / just not
+        def padfill(extras, inner, nfull=14):
+            names = ["p%02d%s" % (i, "n" * 247) for i in range(nfull)] + ["q%d%s" % (j, "m" * (e - 2)) for j, e in enumerate(extras)]
+            return "mixed t() { return\n" + "(\n".join(names) + "(\n" + inner + "\n" + ")" * len(names) + "; }\n"
+        for k in range(148, 158):
+            mk("pad-edge-colon-%d" % k, padfill([249], "%s::b()" % ("a" * (k - 1))))
+        for e in range(100, 118):
+            mk("pad-edge-string-%d" % e, padfill([e], '"%s"' % ("s" * 200), nfull=15))
+        for e in range(238, 255):
+            mk("pad-edge-ident-%d" % e, padfill([60], "z" * e, nfull=15))
         mk("include-ends-in-comment", '#include "c.h"\nint after;\n', [("c.h", "int inc_var; // trailing comment without newline")])
         mk("file-ends-in-comment", "int x; // no newline at end")
         mk("two-sources", "void f() { int time; { int time; } }", second="int g() { return time(); }")
